@@ -55,8 +55,20 @@ def pred_c05(prog, ob):
     or (conditional aux running) a head; a stopped/aborted scheduled or slave framer has none"""
     ix = kernel.Index(prog)
     names = {t: fm for fm in prog["framers"] for t in [ix.tid[fm["name"]]]}
+    tab = tag_table(prog)
+    inside = set()
+    condaux = {}        # (framer, frame) -> conditional auxiliaries declared in that frame
+    for fm0 in prog["framers"]:
+        for fr0 in fm0["frames"]:
+            condaux[(fm0["name"], fr0["name"])] = [pa[2] for pa in fr0.get("preacts", []) if pa[0] == "aux"]
     for e in ob["trace"]:
         if e[0] != "send":
+            if e[2] in tab and tab[e[2]][3] == 0:
+                fmn, frn, ctx, _i = tab[e[2]]
+                if ctx == "enacts":
+                    inside.add((fmn, frn))
+                elif ctx == "exacts":
+                    inside.discard((fmn, frn))
             continue
         _, tk, t, c, r, acts, el, rc = e[:8]
         fm = names[t]
@@ -65,7 +77,16 @@ def pred_c05(prog, ob):
         if r in RUNNING:
             if len(e) > 8 and e[8] is not None:
                 full = outline_of(fm, local[e[8]])       # the outline of the ACTIVE frame
-                ok = anames == full or any(anames == head_of(fm, m) for m in full)
+                ok = anames == full
+                if not ok:
+                    for m in full:
+                        if anames == head_of(fm, m):
+                            # cut at m only while a conditional auxiliary of m is entered
+                            if any(k[0] in condaux[(fm["name"], m)] for k in inside):
+                                ok = True
+                            else:
+                                return ("truncated-without-aux", "tick %d: framer %s has actives %r (cut at %s) "
+                                        "but no conditional auxiliary of %s is running" % (tk, fm["name"], anames, m, m))
             else:
                 ok = False
             if not ok:
